@@ -43,7 +43,7 @@ fn scripts(kmax: usize, full: bool) -> Vec<ActScript> {
                 })
                 .collect();
             out.push(ActScript { publish: publish.clone(), fail_after: None });
-            let kinds: &[u8] = if full { &[0, 1, 2] } else { &[0] };
+            let kinds: &[u8] = if full { &[0, 1, 2] } else { &[0, 1] };
             for j in 0..=k {
                 for &kind in kinds {
                     out.push(ActScript { publish: publish.clone(), fail_after: Some((j, kind)) });
